@@ -81,21 +81,7 @@ func (x *seqInst) Observe() Ev {
 		idx = append(idx, []any{v, l.IndexOf(v), l.Contains(v)})
 	}
 	return Ev{"vals": vals, "size": n, "empty": l.Empty(), "name": firstLine(l.String()), "get": get,
-		"idx": idx, "cnone": l.Contains(), "cap": listCap(l)}
-}
-
-// capacity of the array list's backing slice (0 for linked lists); information only
-func listCap(l any) (c int) {
-	defer func() { recover() }()
-	v := reflect.ValueOf(l)
-	if v.Kind() == reflect.Ptr {
-		v = v.Elem()
-	}
-	f := v.FieldByName("elements")
-	if f.IsValid() && f.Kind() == reflect.Slice {
-		return f.Cap()
-	}
-	return 0
+		"idx": idx, "cnone": l.Contains()}
 }
 
 func (x *seqInst) Do(c Call) []any {
